@@ -141,6 +141,9 @@ func (g *G) nodeOfKind(k spec.Kind, depth int) *spec.Node {
 					}
 				}
 			}
+			if g.O.Tags {
+				LookAlikeTags(g.R, &f)
+			}
 			n.Fields = append(n.Fields, f)
 		}
 		if g.O.EmbedPct > 0 && len(n.Fields) >= 2 && g.pct(g.O.EmbedPct) {
